@@ -4,4 +4,9 @@ package checks
 
 func init() {
 	Registry["C01"] = C01
+	Registry["C02"] = C02
+	Registry["C03"] = C03
+	Registry["C04"] = C04
+	Registry["C16"] = C16
+	Registry["C17"] = C17
 }
